@@ -108,4 +108,25 @@ theorem witnessBytes_inj (t : ℕ) (ws ws' : List (ℕ × List Bytes)) (hlen : w
       have := ih ws' (by simpa using hlen) (fun x hx => hw x (by simp [hx])) (fun x hx => hw' x (by simp [hx])) h3
       rw [hvv, hrs, this]
 
+/-- **C14 (rebuilt after every update).** Each prover RNG instance is forked from a strictly longer transcript history
+    than the one before it: the instance used for a later nonce has seen every message and challenge absorbed in
+    between. -/
+theorem rngHistories_first_two (ctx : List Event) (x : Pub) (A : Bytes) (lrs : List (Bytes × Bytes)) (a1 b : Bytes) :
+    ∃ h0 h1 rest, rngHistories ctx x A lrs a1 b = h0 :: h1 :: rest ∧ h0 <+: h1 ∧ h0.length < h1.length ∧
+      (∀ h ∈ rest, h1 <+: h ∧ h1.length < h.length) := by
+  refine ⟨ctx ++ stmtEvents x, beforeY ctx x A, _, rfl, ?_, ?_, ?_⟩
+  · unfold beforeY; rw [← List.append_assoc]; exact List.prefix_append _ _
+  · unfold beforeY; simp
+  · intro h hh
+    simp only [List.mem_append, List.mem_map, List.mem_range, List.mem_singleton] at hh
+    rcases hh with ⟨j, hj, rfl⟩ | rfl
+    · cases hlr : lrs[j]? with
+      | none => exact absurd hlr (by simp [List.getElem?_eq_none_iff]; omega)
+      | some p =>
+        obtain ⟨l, r⟩ := p
+        simp only
+        exact ⟨beforeY_prefix_beforeE ctx x A _ l r, by unfold beforeE; simp⟩
+    · unfold beforeFinal
+      exact ⟨List.prefix_append _ _, by simp⟩
+
 end Bpp.NonceThm
